@@ -136,7 +136,7 @@ def _may_fork(node):
     for n in ast.walk(node):
         if isinstance(n, ast.BinOp) and isinstance(n.op, ast.MatMult):
             return True
-        if isinstance(n, ast.Call) and isinstance(n.func, ast.Attribute) and n.func.attr in ('dot', '__matmul__'):
+        if isinstance(n, ast.Call) and isinstance(n.func, ast.Attribute) and n.func.attr in ('dot', '__matmul__', 'matricize'):
             return True
     return False
 
@@ -159,7 +159,8 @@ class Executor:
             return cond
         s = z3.Solver()
         s.set('timeout', 3000)
-        for a in self.ctx.axioms:
+        from vt.e1 import calls as _calls
+        for a in list(self.ctx.axioms) + list(_calls.AXIOMS):
             s.add(a)
         for p in state.pc:
             s.add(p)
@@ -755,6 +756,8 @@ class Executor:
             return ('method', obj, a)
         if isinstance(obj, SList):
             return ('method', obj, a)
+        if is_tag(obj, 'squeezed'):
+            return ('method', obj, a)
         if is_tag(obj, 'TTclass'):
             return ('ttfunc', a)
         raise Unsupported('attribute %s of %s at line %d' % (a, type(obj).__name__, node.lineno))
@@ -826,7 +829,9 @@ class Executor:
             src = base.snapshot()
             src.to_fn()
             f = src.fn
-            return SList(state.alloc(), length, fn=lambda j, f=f, a=a: f(a + j), kind=base.kind)
+            res = SList(state.alloc(), length, fn=lambda j, f=f, a=a: f(a + j), kind=base.kind)
+            res.slice_of = (src, a, z3.simplify(a + length))
+            return res
         # reversed full/partial slice  x[a:b:-1] : only the idiom  x[...][::-1] (lo, hi None)
         if lo is not None or hi is not None:
             raise Unsupported('reverse slice with bounds at line %d' % line)
@@ -1002,6 +1007,7 @@ class Executor:
             if isinstance(op, ast.Pow):
                 if is_conc_int(a) and is_conc_int(b):
                     return a ** b
+                return SNum('pow')
         if isinstance(a, SList) and isinstance(b, SList) and isinstance(op, ast.Add):
             return self.list_concat(a, b, state)
         if isinstance(op, ast.Mult) and ((isinstance(a, SList) and ints(b)) or (isinstance(b, SList) and ints(a))):
@@ -1013,7 +1019,7 @@ class Executor:
             return npmodel.elementwise(self, state, [a, b], line)
         if isinstance(a, STT) or isinstance(b, STT):
             return self.tt_binop(op, a, b, state, line)
-        if isinstance(a, (SNum, SInf)) or isinstance(b, (SNum, SInf)):
+        if (isinstance(a, (SNum, SInf)) or isinstance(b, (SNum, SInf))) and not isinstance(a, SArr) and not isinstance(b, SArr):
             cx = z3.Or(a.cplx if isinstance(a, SNum) else z3.BoolVal(False), b.cplx if isinstance(b, SNum) else z3.BoolVal(False))
             return SNum('arith', cplx=cx)
         if isinstance(a, STT) or isinstance(b, STT):
